@@ -123,9 +123,10 @@ ROUND7 = {
 
 # rules added in the eighth seeded round (DESIGN 11.24)
 ROUND8 = {
+    'C01': 'lower bound a parser puts on a length field against the value composed for empty data',
     'C02': 'plain numbers stored in fields that admit enumeration members only',
     'C08': 'TXT parser evaluated over RDATA with empty character-strings; string primitives convert with the codec they are given',
-    'C09': 'LDAP result code map evaluated against the enumeration',
+    'C09': 'LDAP result code map evaluated against the enumeration; lower bounds on length fields admit the value composed for empty data',
     'C10': 'no table over range(min(E), max(E)); no parsed sequence rebuilt from a mapping keyed by its items',
     'C11': 'string primitives convert with the codec they are given; packed writes (value | sibling << k) need a bounded low part',
     'C13': 'no shallow copy.copy',
